@@ -27,7 +27,15 @@ import (
 	"verif/harness/script"
 )
 
-var kinds = []string{"read-eof", "read-closed", "read-reset", "write-epipe", "write-reset", "short-write", "server-closes-after-reply", "server-closes-after-read"}
+// the first nClientKinds are injected at an operation index of a client connection; the last two act at the server
+var kinds = []string{"read-eof", "read-closed", "read-reset", "write-epipe", "write-reset", "short-write", "short-write-peer-stays", "write-error-after-delivery", "server-closes-after-reply", "server-closes-after-read"}
+
+const nClientKinds = 8
+
+// peerStays: the fault is local to one Write; the transport and the peer stay healthy afterwards.
+func peerStays(kind string) bool {
+	return kind == "short-write-peer-stays" || kind == "write-error-after-delivery"
+}
 
 const maxOps = 26
 
@@ -121,6 +129,11 @@ func clientFault(kind, op string) *memnet.Fault {
 		return &memnet.Fault{Err: &net.OpError{Op: "write", Net: "mem", Err: os.NewSyscallError("write", syscall.ECONNRESET)}}
 	case kind == "short-write" && op == "write":
 		return &memnet.Fault{Err: &net.OpError{Op: "write", Net: "mem", Err: os.NewSyscallError("write", syscall.EPIPE)}, Short: 5}
+	case kind == "short-write-peer-stays" && op == "write":
+		return &memnet.Fault{Err: io.ErrShortWrite, Short: 5} // not a network error; nothing else is wrong with the connection
+	case kind == "write-error-after-delivery" && op == "write":
+		// the bytes reached the peer, the error (a write deadline firing after the flush) is reported all the same
+		return &memnet.Fault{Err: &net.OpError{Op: "write", Net: "mem", Err: os.ErrDeadlineExceeded}, AfterAll: true}
 	}
 	return nil
 }
@@ -146,11 +159,16 @@ func (w *world) dialer(ctx context.Context) (net.Conn, error) {
 			if idx < w.at2 {
 				return nil
 			}
+			if peerStays(w.kind2) && w.fired2.Load() {
+				return nil // one faulty Write, then the connection works again
+			}
 			f := clientFault(w.kind2, op)
 			if f != nil {
-				w.fired2Err = f.Err
 				w.fired2.Store(true)
-				conn.Close()
+				if !peerStays(w.kind2) {
+					w.fired2Err = f.Err
+					conn.Close()
+				}
 			}
 			return f
 		})
@@ -164,26 +182,17 @@ func (w *world) dialer(ctx context.Context) (net.Conn, error) {
 			if idx < w.at {
 				return nil
 			}
-			var f *memnet.Fault
-			switch {
-			case w.kind == "read-eof" && op == "read":
-				f = &memnet.Fault{Err: io.EOF}
-			case w.kind == "read-closed" && op == "read":
-				f = &memnet.Fault{Err: &net.OpError{Op: "read", Net: "mem", Err: net.ErrClosed}}
-			case w.kind == "read-reset" && op == "read":
-				f = &memnet.Fault{Err: &net.OpError{Op: "read", Net: "mem", Err: os.NewSyscallError("read", syscall.ECONNRESET)}}
-			case w.kind == "write-epipe" && op == "write":
-				f = &memnet.Fault{Err: &net.OpError{Op: "write", Net: "mem", Err: os.NewSyscallError("write", syscall.EPIPE)}}
-			case w.kind == "write-reset" && op == "write":
-				f = &memnet.Fault{Err: &net.OpError{Op: "write", Net: "mem", Err: os.NewSyscallError("write", syscall.ECONNRESET)}}
-			case w.kind == "short-write" && op == "write":
-				f = &memnet.Fault{Err: &net.OpError{Op: "write", Net: "mem", Err: os.NewSyscallError("write", syscall.EPIPE)}, Short: 5}
+			if peerStays(w.kind) && w.fired.Load() {
+				return nil // one faulty Write, then the connection works again
 			}
+			f := clientFault(w.kind, op)
 			if f != nil {
-				w.firedErr = f.Err
 				w.fired.Store(true)
-				// the peer sees the connection go away
-				conn.Close()
+				if !peerStays(w.kind) {
+					w.firedErr = f.Err
+					// the peer sees the connection go away
+					conn.Close()
+				}
 			}
 			return f
 		})
@@ -346,12 +355,12 @@ func matrix(c *core.Ctx, r *core.Rand, i int) {
 func doubleFault(c *core.Ctx, r *core.Rand, i int) {
 	const n1, n2 = 14, 10
 	if !c.Thorough() {
-		i = r.Intn(len(kinds) * n1 * 6 * n2) // quick: a seeded sample of the same space
+		i = r.Intn(len(kinds) * n1 * nClientKinds * n2) // quick: a seeded sample of the same space
 	}
 	kind1 := kinds[i%len(kinds)]
 	at1 := (i / len(kinds)) % n1
-	kind2 := kinds[(i/(len(kinds)*n1))%6]
-	at2 := (i / (len(kinds) * n1 * 6)) % n2
+	kind2 := kinds[(i/(len(kinds)*n1))%nClientKinds]
+	at2 := (i / (len(kinds) * n1 * nClientKinds)) % n2
 	label := fmt.Sprintf("df-%s@%d+%s@%d", kind1, at1, kind2, at2)
 	c.Distinct(core.Hash64("double", label))
 	base := len(census.Goroutines())
@@ -431,7 +440,7 @@ func repeatedDrops(c *core.Ctx, r *core.Rand, i int) {
 
 // reconnect failures: the dialer itself fails a few times after the fault, then recovers
 func dialerFails(c *core.Ctx, r *core.Rand, i int) {
-	kind := kinds[i%6]
+	kind := kinds[i%nClientKinds]
 	at := 4 + r.Intn(12)
 	fails := 1 + i%3
 	label := fmt.Sprintf("df%d-%s@%d-dialfails%d", i, kind, at, fails)
@@ -741,7 +750,7 @@ func Spec() *core.Spec {
 			"Monitors: panic/crash, own-id response or error, never two consecutive failed calls, <= 4 transmissions per request, calls fail after Close, goroutine census after Close. a response whose frame-completing Read is handed over only when the connection is closed (call abandoned by cancel, deadline or Close); distinct = distinct (scenario kind, fault kind, operation index)",
 		Assumptions: []string{"recovery rule used: while the server is reachable and new connections are fault-free, two consecutive calls never both fail (a call pending at, or first after, the fault may fail)",
 			"goroutines gone = none with a library frame within 10 s of closing the client and the server (bounded progress)"},
-		Required: []string{"calls", "late_responses_held", "double_faults_both_fired", "faults_fired.read-eof", "faults_fired.read-reset", "faults_fired.write-epipe", "faults_fired.short-write", "faults_fired.server-closes-after-reply", "faults_fired.server-closes-after-read",
+		Required: []string{"calls", "late_responses_held", "double_faults_both_fired", "faults_fired.read-eof", "faults_fired.read-reset", "faults_fired.write-epipe", "faults_fired.short-write", "faults_fired.short-write-peer-stays", "faults_fired.write-error-after-delivery", "faults_fired.server-closes-after-reply", "faults_fired.server-closes-after-read",
 			"census_checks", "calls_after_close", "repeated_drops.k4", "repeated_drops.k5", "dialer_failure_scenarios", "concurrent_scenarios", "directed.terminate-before-send-select", "directed.close-in-flight"},
 		Shards: func(string) int { return 8 },
 		Families: []core.Family{
@@ -749,7 +758,7 @@ func Spec() *core.Spec {
 			{Name: "repeated-drops", Exhaustive: true, N: func(string) int { return 16 }, Run: repeatedDrops, Timeout: 40 * time.Second},
 			{Name: "double-fault", N: func(tier string) int {
 				if tier == core.Thorough {
-					return len(kinds) * 14 * 6 * 10
+					return len(kinds) * 14 * nClientKinds * 10
 				}
 				return 120
 			}, Run: doubleFault, Timeout: 40 * time.Second},
